@@ -282,7 +282,7 @@ var specs = []CheckSpec{
 			"thorough": "one writer/one reader with data <= 2 bytes; two writers with a reader overlapping them at solver-chosen snapshots (data <= 2 bytes; whole writes, no torn writes: with torn writes the exploration did not finish in 2.5 hours and was cut back)",
 		},
 		Stubs: []string{"as C05; vfs snapshots after every mutation (torn writes included); observer view re-bound to the chosen snapshot before each operation"},
-		Assumptions: append([]string{"open, truncate, stat, chtimes, unlink are atomic; a single write may be observed half done at a byte boundary; processes share only the file system (goroutines inside one process share nothing else in this code)", "modification times are not observed by Put or by lookups (only by Trim), so the reader's Chtimes commute with the writer (the harness ignores chtimes when forming snapshots)", "SHA-256 as injective pool-digest model (see C05)"}, commonAssumptions...),
+		Assumptions: append([]string{"open, truncate, stat, chtimes, unlink are atomic; a single write may be observed half done at a byte boundary; processes share only the file system; that goroutines of one process sharing a *Cache share nothing else is checked: a lookup must leave the Cache object unchanged (SameState)", "modification times are not observed by Put or by lookups (only by Trim), so the reader's Chtimes commute with the writer (the harness ignores chtimes when forming snapshots)", "SHA-256 as injective pool-digest model (see C05)"}, commonAssumptions...),
 		Outside:     []string{"more than two writers; more than two context switches between the two writers (B never resumes: clauses about the state after both writers finished are asserted for one writer only)", "more than one concurrent reader (readers do not influence each other: they only call Chtimes)", "Trim racing with readers or writers"},
 	},
 }
